@@ -200,6 +200,7 @@ def run(fn_jsons, crates=("findutils", "find", "xargs")):
     for p in done:
         try:
             thread.run_function(fn_jsons[p][0])
+            thread.fold_known_switches(fn_jsons[p][0])
         except Exception:
             pass
     return done
